@@ -350,17 +350,8 @@ Definition src_NadaType_bool : list string :=  [
 Definition src_compile_script : list string :=  [
    "script_dir = os.path.dirname(script_path)"; 
    "sys.path.insert(0, script_dir)"; 
-   "script_name = os.path.basename(script_path)"; 
-   "if script_name.endswith('.py'): ;     script_name = script_name[:-3]"; 
-   "timer.start('nada_dsl.compile.compile.__import__')"; 
-   "spec = importlib.util.spec_from_file_location(script_name, script_path)"; 
-   "script = importlib.util.module_from_spec(spec)"; 
-   "spec.loader.exec_module(script)"; 
-   "timer.stop('nada_dsl.compile.compile.__import__')"; 
-   "try: ;     main = getattr(script, 'nada_main') ; except Exception as exc: ;     raise MissingEntryPointError(""'nada_dsl' entrypoint function is missing in program "" + script_name) from exc"; 
-   "outputs = main()"; 
-   "compile_output = nada_compile(outputs)"; 
-   "return CompilerOutput(compile_output)"].
+   "loaded_before = set(sys.modules)"; 
+   "try: ;     return _compile_script(script_path) ; finally: ;     own_dir = os.path.abspath(script_dir) ;     for name in set(sys.modules) - loaded_before: ;         path = getattr(sys.modules[name], '__file__', None) ;         if path and os.path.dirname(os.path.abspath(path)) == own_dir: ;             del sys.modules[name] ;     if script_dir in sys.path: ;         sys.path.remove(script_dir)"].
 
 Definition src_compile_string : list string :=  [
    "decoded_program = base64.b64decode(script).decode('utf-8')"; 
